@@ -28,17 +28,25 @@ func Extract(p *Pset) (*transaction.Transaction, error) {
 	tx.Locktime = p.Locktime()
 
 	for _, in := range p.Inputs {
+		// same defaults and tests as Pset.UnsignedTx(), which is what signers sign
+		sequence := in.Sequence
+		if sequence == 0 {
+			sequence = transaction.DefaultSequence
+		}
 		txIn := &transaction.TxInput{
 			Hash:     in.PreviousTxid,
 			Index:    in.PreviousTxIndex,
-			Sequence: in.Sequence,
+			Sequence: sequence,
 		}
 
 		var issuance *transaction.TxIssuance
-		if in.IssuanceValue > 0 || in.IssuanceValueCommitment != nil {
+		if in.IssuanceAssetEntropy != nil {
 			value := in.IssuanceValueCommitment
 			if value == nil {
-				value, _ = elementsutil.ValueToBytes(in.IssuanceValue)
+				value = []byte{0x00}
+				if in.IssuanceValue > 0 {
+					value, _ = elementsutil.ValueToBytes(in.IssuanceValue)
+				}
 			}
 			tokenValue := in.IssuanceInflationKeysCommitment
 			if tokenValue == nil {
